@@ -371,3 +371,19 @@ def install_schedule_hook():
         REQS.append((R.TICK[0] + (0 if in_tick else 1), req.name, req.instance_id, req.source))
         return orig(self, req)
     CommandManager.schedule = schedule
+
+
+def stop_race_tainted(reqs: list[tuple], alive_at_tick_start: dict, name_of: dict, conflicts, uod_names) -> set:
+    """instance ids touched by the Stop race: a UOD request queued *before* a Stop/Restart request that is dequeued by
+    the same command-manager tick. Newer requests are put first, so the Stop's cancel phase runs before the command is
+    created (cancel "by name" then hits nothing, or the instance of an older conflicting request); afterwards the
+    command - or the older request re-creating its instance - starts and is never cancelled."""
+    out: set = set()
+    for i, q in enumerate(reqs):
+        if q[1] not in ("Stop", "Restart"):
+            continue
+        for o in reqs[:i]:
+            if o[0] == q[0] and o[1] in uod_names:
+                out.add(o[2])
+                out |= {a for a in alive_at_tick_start.get(q[0], ()) if a in name_of and conflicts(name_of[a], o[1])}
+    return out
